@@ -122,6 +122,21 @@ func structuredAll(thorough bool) []string {
 			"counter c\nconst A /a/\n/x/"+rep(" + A", d)+" {\n c++\n}\n",
 		)
 	}
+	// every binary operator over every pair of hostile constant operands (what
+	// a constant folder, the type checker's coercions and codegen's operand
+	// handling see), as a value, as a condition and with a non-constant sibling
+	lits := []string{"0", "1", "-1", "63", "64", "-64", "9223372036854775807", "-9223372036854775808", "0.0", "-0.5", "1e308", "5e-324", "(3 - 4)", "(2 ** 70)", "\"s\"", "\"\""}
+	for _, op := range []string{"+", "-", "*", "/", "%", "**", "<<", ">>", "&", "|", "^", "<", "<=", ">", ">=", "==", "!=", "&&", "||"} {
+		for _, a := range lits {
+			for _, b := range lits {
+				out = append(out, "gauge g\n/(\\d+)/ {\n g = "+a+" "+op+" "+b+"\n}\n")
+				if thorough || (len(a)+len(b))%3 == 0 {
+					out = append(out, "counter c\n/(\\d+)/ {\n "+a+" "+op+" "+b+" {\n c++\n }\n}\n",
+						"gauge g\n/(\\d+)/ {\n g = $1 + ("+a+" "+op+" "+b+")\n}\n")
+				}
+			}
+		}
+	}
 	big := 3000
 	if thorough {
 		big = 30000
